@@ -62,10 +62,11 @@ pub fn c02(ctx: &Ctx) -> (CheckMeta, Outcome) {
     }
     let mut out = run_all(tasks, threads());
     out.merge(c02_long_zero_extension(ctx));
+    out.merge(all_small_images("C02", ctx));
     let meta = CheckMeta {
         property: "C02".into(),
         level: "model_checking".into(),
-        rule: "breadth-first exploration to the fixpoint of the real reader object (exact Debug-string state identity) for every (endianness, reader kind, backend, image); alphabet read_bits 0..=64, peek 1..=max twice, skip 0..=2W+1,3W,3W+1, read_unary; every transition compared with the bit-vector model (value, advance, bit_pos); a failed peek on a strict backend must leave the reader intact (the state continues); plus one long history per zero-extended reader: 140 000 (thorough 3 000 000) 64-bit reads/skips past the end must all see zeros; distinct_nontrivial counts transitions that start in a state reached through at least one earlier operation".into(),
+        rule: "breadth-first exploration to the fixpoint of the real reader object (exact Debug-string state identity) for every (endianness, reader kind, backend, image); alphabet read_bits 0..=64, peek 1..=max twice, skip 0..=2W+1,3W,3W+1, read_unary; every transition compared with the bit-vector model (value, advance, bit_pos); a failed peek on a strict backend must leave the reader intact (the state continues); plus one long history per zero-extended reader: 140 000 (thorough 3 000 000) 64-bit reads/skips past the end must all see zeros; plus the small-scope section: EVERY one of the 2^16 two-byte streams (two words of a u8 reader; thorough also one word of a u16 reader; strict and zero-extended memory backends, both endiannesses) explored to the fixpoint with read_bits {1,2,3,7,8,9,16}, peeks, skips, unary and table-free gamma/delta/omega/zeta3/Golomb3 reads (thorough: read_bits 0..=17, every peek width, every skip 0..=17, all code variants incl. tables where the look-ahead suffices) - no choice of data values is involved there; distinct_nontrivial counts transitions that start in a state reached through at least one earlier operation".into(),
         assumptions: vec!["reference model = canonical layout of C01 (harness/src/model.rs)".into(), "little-endian 64-bit host".into()],
     };
     (meta, out)
@@ -564,6 +565,81 @@ pub fn tail_exact(prop: &'static str, ctx: &Ctx) -> Outcome {
                     }
                     out
                 }));
+            }
+        }
+    }
+    run_all(tasks, threads())
+}
+
+
+/// Small-scope, data-complete section: every one of the 2^16 two-byte streams is explored to the
+/// fixpoint on the u8-word reader (two words: every refill boundary) and the u16-word reader (one
+/// word), strict and zero-extended.  Removes the "finite set of images" limit for short streams.
+pub fn all_small_images(prop: &'static str, ctx: &Ctx) -> Outcome {
+    use crate::model::Code;
+    let mut tasks: Vec<Task> = vec![];
+    const CHUNKS: usize = 32;
+    for e in End::BOTH {
+        for kind in ["buf8", "buf16"] {
+            if kind == "buf16" && !ctx.thorough {
+                // one-word streams: thorough tier only
+                continue;
+            }
+            for backend in ["memstrict", "memzx"] {
+                for chunk in 0..CHUNKS {
+                    let diag = ctx.diag[kind];
+                    let thorough = ctx.thorough;
+                    tasks.push(Box::new(move || {
+                        let mut out = Outcome::new();
+                        let (_, pk) = kind_word(kind);
+                        let mut alphabet: Vec<ROp> = vec![];
+                        if thorough {
+                            for n in 0..=17u8 {
+                                alphabet.push(ROp::ReadBits(n));
+                            }
+                            for n in 1..=pk as u8 {
+                                alphabet.push(ROp::Peek(n));
+                            }
+                            for n in 0..=17u16 {
+                                alphabet.push(ROp::Skip(n));
+                            }
+                            alphabet.push(ROp::Unary);
+                            alphabet.extend(code_ops());
+                        } else {
+                            for n in [1u8, 2, 3, 7, 8, 9, 16] {
+                                alphabet.push(ROp::ReadBits(n));
+                            }
+                            for n in [1u8, 8] {
+                                if n as usize <= pk {
+                                    alphabet.push(ROp::Peek(n));
+                                }
+                            }
+                            for n in [1u16, 9] {
+                                alphabet.push(ROp::Skip(n));
+                            }
+                            alphabet.push(ROp::Unary);
+                            for op in [ROp::GammaP(false), ROp::DeltaP(false, false), ROp::Omega, ROp::Golomb(3), ROp::ZetaP(3)] {
+                                alphabet.push(op);
+                            }
+                        }
+                        let per = 65536 / CHUNKS;
+                        let mut agg = Outcome::new();
+                        for x in (chunk * per)..((chunk + 1) * per) {
+                            let bytes = [(x >> 8) as u8, x as u8];
+                            let model = RdModel { bits: Bits::from_bytes(&bytes, e), e, zx: backend == "memzx", limit: if thorough { 32 } else { 24 }, tables_ok: diag };
+                            let rd = make_reader(e, kind, backend, "", &bytes);
+                            let run = RdRun { property: prop, model: &model, image: &bytes, alphabet: &alphabet, max_states: 4_000, check_counter: false, max_depth: 0 };
+                            let o = explore(&run, rd);
+                            agg.cov.add_extra("small_scope_images", 1);
+                            agg.merge(o);
+                            if agg.violations.len() > 40 {
+                                break;
+                            }
+                        }
+                        out.merge(agg);
+                        out
+                    }));
+                }
             }
         }
     }
